@@ -177,8 +177,23 @@ def gen_op(rng, sh, stamped, projected):
     else:
         names += ["down_path"]
     name = names[rng.integers(len(names))]
+    if rng.random() < .04:
+        name = "degenerate"
     mag = float(np.std(sh.p)) + 1e-2 if sh.n else 1.0
     op = {"op": name}
+    if name == "degenerate":
+        # a matrix outside SE(3)/Sim(3) (mirror image, singular block) offered to transform()
+        T = rand_T(rng, mag)
+        k = int(rng.integers(3))
+        if k == 0:
+            T[:3, :3] = T[:3, :3] @ np.diag([1.0, -1.0, 1.0])
+        elif k == 1:
+            T = np.diag([1.0, -1.0, 1.0, 1.0])
+        else:
+            T[:3, 2] = 0.0
+        op["T"] = T
+        op["right"] = bool(rng.random() < .3)
+        return op
     if name in ("tl", "tr", "trp"):
         op["T"] = rand_T(rng, mag)
     elif name == "sim":
@@ -190,6 +205,8 @@ def gen_op(rng, sh, stamped, projected):
         op["T"] = T
     elif name == "scale":
         op["s"] = float(10.0**rng.uniform(-0.3, 0.3))
+        if rng.random() < .15:
+            op["s"] = -op["s"]  # any factor multiplies the positions only
     elif name == "ids":
         k = int(rng.integers(1, sh.n + 1))
         op["ids"] = sorted(rng.choice(sh.n, size=k, replace=False).tolist())
@@ -243,6 +260,24 @@ def apply_op(run, case, real, sh, op, stamped, state, step):
     from evo.core.trajectory import Plane, TrajectoryException
     from evo.core.geometry import GeometryException
     name = op["op"]
+    if name == "degenerate":
+        # tried on a deep copy: if evo refuses the matrix, the refused object must still be the
+        # trajectory it was (all views, compared with the unchanged model) and the history goes on
+        # with it; if evo accepts it the result is outside the statement and the copy is dropped
+        import copy as _copy
+        from evo import EvoException
+        probe = _copy.deepcopy(real)
+        try:
+            probe.transform(np.array(op["T"], dtype=float), right_mul=op["right"])
+        except EvoException:
+            run.hit("degenerate transformation refused")
+            read_and_compare(run, case, probe, sh, ["T", "p", "q"] + (["t"] if stamped else []), step,
+                             "refused transformation")
+            return probe, sh
+        except Exception:
+            pass  # numpy's own complaint about the degenerate numbers: outside the statement as well
+        run.hit("degenerate transformation accepted (copy dropped, not judged)")
+        return real, sh
     if name == "tl" or name == "sim":
         real.transform(np.array(op["T"], dtype=float))
         sh.transform_left(op["T"])
